@@ -165,6 +165,10 @@ def write_evidence(mod, prop, tier, seed, results, confirmed, violations, known_
         funcs = functions_entered(mod, results)
     except Exception as e:  # noqa
         funcs = ['<not measured: %s>' % e]
+    for r in results:
+        for x in r.get('encoded') or []:
+            if x not in funcs:
+                funcs.append(x)
     ev = dict(
         property_id=prop, tier=tier, seed=seed, level='other',
         coverage=dict(
